@@ -92,6 +92,59 @@ def bits(x):
     return struct.pack(">d", float(x))
 
 
+def reread_after_fault(ctx, tmp):
+    """one EEMSRead command asked again after its file was repaired step by step: every failed attempt names the file line of the (then) first bad cell,
+    and the last attempt returns the column"""
+    from mpilot.libraries.eems.csv.io import EEMSRead
+    from mpilot.arguments import Argument
+    from mpilot.exceptions import MPilotError
+    rng = ctx.rng
+    for rep in range(ctx.budget(6, 60)):
+        n = rng.randrange(5, 12)
+        rows = [[str(rng.randrange(100)), str(rng.randrange(100))] for _ in range(n)]
+        blanks = sorted(rng.sample(range(1, n), rng.randrange(0, 3)))
+        bad = sorted(rng.sample(range(n), rng.randrange(2, 4)))
+        for k in bad:
+            rows[k][1] = rng.choice(["x", "n/a", "", "1,5".replace(",", ";")])
+
+        def text():
+            out, line, where = ["a,b"], 1, {}
+            for i, r in enumerate(rows):
+                if i in blanks:
+                    out.append(""); line += 1
+                out.append(",".join(r)); line += 1
+                where[i] = line
+            return "\n".join(out) + "\n", where
+        path = os.path.join(tmp, "reread_%d.csv" % rep)
+        cmd = EEMSRead("R", [Argument("InFileName", path, 2), Argument("InFieldName", "b", 3)], lineno=1)
+        history = []
+        for step in range(len(bad) + 1):
+            t, where = text()
+            write_file(path, t)
+            try:
+                with numpy.errstate(all="ignore"):
+                    r = cmd.result
+                got = ("ok", r)
+            except MPilotError as e:
+                got = ("mp", type(e).__name__, str(e))
+            except Exception as e:
+                got = ("raw", type(e).__name__, str(e))
+            history.append(t)
+            ctx.count("reads_after_a_failed_read")
+            desc = {"file_texts_in_turn": history, "InFieldName": "b"}
+            if step < len(bad):
+                want = where[bad[step]]
+                if not (got[0] == "mp" and got[1] == "InvalidDataFile" and ("line %d." % want) in got[2]):
+                    ctx.fail("attempt %d of the same EEMSRead command: the first non-numeric cell is on file line %d, reported: %s %r" % (step + 1, want, got[1], got[2][:120]), desc)
+                    break
+                rows[bad[step]][1] = str(rng.randrange(100))
+            else:
+                want = [float(r[1]) for r in rows]
+                if got[0] != "ok" or numpy.ma.getdata(got[1]).tolist() != want or numpy.ma.getmaskarray(got[1]).any():
+                    ctx.fail("after the file was repaired the same EEMSRead command returns %s, the column is %r" % (got[1] if got[0] != "ok" else got[1].tolist(), want), desc)
+        ctx.case("reread %d %r" % (rep, rows), sample=None)
+
+
 def run(ctx):
     ctx.check_proofs(["MPilot.Props.C17"])
     model = common.Model()
@@ -204,6 +257,7 @@ def run(ctx):
             if out[0] != "mp" or out[1] != want_cls or (" line " in ans and ("line %s." % ans.split(" ")[-1]) not in out[2]):
                 ctx.disagree("csvread", desc, "%s %s %s" % (out[0], out[1] if out[0] != "ok" else "", out[2][:80] if len(out) > 2 and out[0] != "ok" else ""), ans)
     write_checks(ctx, model, tmp)
+    reread_after_fault(ctx, tmp)
     return ctx.finish(
         rule="tables of 0-40 rows x 1-6 columns with header names that need CSV quoting (comma, quote, line break, blanks, empty, duplicates), blank lines, cells in "
              "many numeric spellings and doubles from subnormal to extreme, a third of the tables with non-numeric cells / ragged rows; each read with a random column, "
